@@ -186,14 +186,13 @@ impl ForwardedStreamSource {
     }
 
     async fn read_body(&mut self) -> io::Result<pipe::Data> {
-        let mut state = match std::mem::replace(&mut self.state, SourceState::Done) {
-            SourceState::TransferringBody(x) => x,
+        // The state stays in place while the read is pending: the pipe drops and restarts this
+        // future whenever one of its idle timers fires
+        let result = match &mut self.state {
+            SourceState::TransferringBody(x) => x.source.read().await?,
             _ => unreachable!(),
         };
 
-        let result = state.source.read().await?;
-
-        self.state = SourceState::TransferringBody(state);
         let state = match &mut self.state {
             SourceState::TransferringBody(x) => x,
             _ => unreachable!(),
